@@ -74,6 +74,11 @@ class StatImpl(Impl):
             self.pending[int(src)]['effects'][int(eid)]['duration_attr_id'] = opt(a)
             return 'ok'
         if c == 'setdmg':
+            if t[2].startswith('!'):
+                # not a damage profile at all: documented TypeError, nothing may change
+                self.fits[int(t[1])].default_incoming_dmg = {
+                    '!none': None, '!tuple': (1, 1, 1, 1), '!resist': ResistProfile(0.5, 0.5, 0.5, 0.5)}[t[2]]
+                return 'ok'
             self.fits[int(t[1])].default_incoming_dmg = profile(DmgProfile, t[2])
             return 'ok'
         if c == 'regdump':
